@@ -1,4 +1,4 @@
-\* generation (thorough): as Gen_StateBuffer.cfg plus a plain account, a longer account log
+\* generation (thorough): as Gen_StateBuffer.cfg plus a plain account and a 2-entry account log
 SPECIFICATION Spec
 CONSTANTS
   Accts = {"a1"}
